@@ -35,6 +35,60 @@ def stub(module, name, value):
     module.__dict__[name] = value
 
 
+def shadow_module(module):
+    """rebind, in a module under test, the builtins and stdlib names through which a (possibly newly
+    introduced) computation would otherwise reach C code with a shadow value: int, float, and timedelta
+    when the module imports it"""
+    from datetime import timedelta as _td
+
+    stub(module, "int", S.sym_int)
+    stub(module, "float", S.sym_float)
+    if module.__dict__.get("timedelta") is _td:
+        stub(module, "timedelta", S.sym_timedelta)
+
+
+FLOATS = False
+FLOAT_PIECES = 17
+
+
+def with_floats(fn):
+    """variant of a harness in which whatever float arithmetic the code performs on instants and durations
+    follows IEEE double rounding (symex.fp); quantities drawn through X.ranged() are confined to binary
+    range pieces below 2^17"""
+
+    def h(x, **kw):
+        global FLOATS
+        FLOATS = True
+        try:
+            with float_semantics():
+                return fn(x, **kw)
+        finally:
+            FLOATS = False
+
+    h.__name__ = fn.__name__ + "_floats"
+    return h
+
+
+class float_semantics:
+    """within the block, float-producing operations on shadows (total_seconds(), timestamp(), int / int,
+    timedelta / timedelta) follow IEEE double rounding (symex.fp) instead of exact rationals"""
+
+    def __init__(self, on=True):
+        self.on = on
+
+    def __enter__(self):
+        from symex import fp
+
+        self.prev = fp.IEEE
+        if self.on:
+            fp.IEEE = True
+
+    def __exit__(self, *a):
+        from symex import fp
+
+        fp.IEEE = self.prev
+
+
 class native_mode:
     """run the real code without shadows: all stubs removed, engine in concrete mode"""
 
@@ -69,6 +123,15 @@ class X:
             raise KeyError("duplicate input " + name)
         self.names.append((name, kind))
 
+    def ranged(self, name, lo, hi):
+        """an integer quantity in [lo, hi]; under float semantics (FLOATS) it is instead confined to one binary
+        range piece [2^p, 2^(p+1)) below 2^FLOAT_PIECES chosen by forking, so that every float rounding applied
+        to it has one or two candidate binades"""
+        if not FLOATS:
+            return self.zint(name, lo, hi)
+        p = self.choice(name + "_piece", FLOAT_PIECES)
+        return self.zint(name, max(lo, 2**p if p else 0), min(hi, 2 ** (p + 1) - 1))
+
     def zint(self, name, lo=None, hi=None):
         """raw z3 Int (sym) / python int (native)"""
         self._decl(name)
@@ -78,6 +141,10 @@ class X:
                 E.ENG.assume(v >= lo)
             if hi is not None:
                 E.ENG.assume(v <= hi)
+            if lo is not None and hi is not None:
+                from symex import fp
+
+                fp.declare_bounds(name, lo, hi)
         else:
             v = self.values[name]
             if (lo is not None and v < lo) or (hi is not None and v > hi):
